@@ -181,6 +181,53 @@ class MethodToFunction(ast.NodeTransformer):
         return node
 
 
+class ElseAfterReturn(ast.NodeTransformer):
+    """if c: ...; return/raise   followed by S   ->   if c: ...; return/raise  else: S"""
+
+    def _body(self, body):
+        for i, st in enumerate(body):
+            if isinstance(st, ast.If) and not st.orelse and st.body and isinstance(st.body[-1], (ast.Return, ast.Raise)) and body[i + 1:]:
+                st.orelse = self._body(body[i + 1:])
+                return body[:i + 1]
+        return body
+
+    def visit_FunctionDef(self, node):
+        self.generic_visit(node)
+        node.body = self._body(node.body)
+        return node
+
+
+class ReverseKeywords(ast.NodeTransformer):
+    """f(a=1, b=2) -> f(b=2, a=1) (keyword order is irrelevant; **kwargs entries stay last)"""
+
+    def visit_Call(self, node):
+        self.generic_visit(node)
+        named = [k for k in node.keywords if k.arg is not None]
+        rest = [k for k in node.keywords if k.arg is None]
+        node.keywords = list(reversed(named)) + rest
+        return node
+
+
+class FormatToFString(ast.NodeTransformer):
+    """"...{}...".format(a, b) -> f"...{a}...{b}" for plain positional fields"""
+
+    def visit_Call(self, node):
+        self.generic_visit(node)
+        f = node.func
+        if isinstance(f, ast.Attribute) and f.attr == "format" and isinstance(f.value, ast.Constant) and isinstance(f.value.value, str) and not node.keywords \
+                and not any(isinstance(a, ast.Starred) for a in node.args):
+            parts = f.value.value.split("{}")
+            if len(parts) == len(node.args) + 1 and "{" not in "".join(parts) and "}" not in "".join(parts):
+                vals = []
+                for i, txt in enumerate(parts):
+                    if txt:
+                        vals.append(ast.Constant(value=txt))
+                    if i < len(node.args):
+                        vals.append(ast.FormattedValue(value=node.args[i], conversion=-1, format_spec=None))
+                return ast.JoinedStr(values=vals)
+        return node
+
+
 def transformed(kind):
     root = pathlib.Path("/repo/verde")
     overlay = {}
@@ -202,6 +249,12 @@ def transformed(kind):
             tree = ast.fix_missing_locations(Yoda().visit(tree))
         if kind == "method-to-function" and any(isinstance(n, ast.Import) and any(a.name == "numpy" and a.asname == "np" for a in n.names) for n in tree.body):
             tree = ast.fix_missing_locations(MethodToFunction().visit(tree))
+        if kind == "else-after-return":
+            tree = ast.fix_missing_locations(ElseAfterReturn().visit(tree))
+        if kind == "reverse-keywords":
+            tree = ast.fix_missing_locations(ReverseKeywords().visit(tree))
+        if kind == "fstring":
+            tree = ast.fix_missing_locations(FormatToFString().visit(tree))
         if kind == "hoist":
             tree = ast.fix_missing_locations(Hoist().visit(tree))
         if kind == "keywordize":
@@ -215,7 +268,7 @@ def transformed(kind):
 
 def main():
     bad = 0
-    for kind in ("format", "rename", "commute", "keywordize", "hoist", "invert-if", "yoda", "method-to-function"):
+    for kind in ("format", "rename", "commute", "keywordize", "hoist", "invert-if", "yoda", "method-to-function", "else-after-return", "reverse-keywords", "fstring"):
         overlay = transformed(kind)
         for src in overlay.values():
             compile(src, "<variant>", "exec")
